@@ -100,6 +100,30 @@ func H_C11_readonly() {
 			r["<-"] = float64(1)
 		}
 	}
+	// every array of the document is a window of a larger backing array: a
+	// library append that lands in the caller's spare capacity shows in the
+	// sentinel cells behind the window
+	var backings [][]any
+	spare := func(a []any) []any {
+		b := make([]any, len(a), len(a)+2)
+		copy(b, a)
+		full := b[:len(a)+2]
+		full[len(a)], full[len(a)+1] = "sentinel", "sentinel"
+		backings = append(backings, full)
+		return b
+	}
+	for _, r := range rows {
+		for _, k := range []string{"items", "dup", "w"} {
+			if a, ok := r[k].([]any); ok {
+				r[k] = spare(a)
+			}
+		}
+	}
+	for _, k := range []string{"t", "u"} {
+		if a, ok := doc[k].([]any); ok {
+			doc[k] = spare(a)
+		}
+	}
 	snap := verif.Snapshot(doc)
 	c := verif.F64("c")
 	sql := c11Queries[qi]
@@ -113,6 +137,13 @@ func H_C11_readonly() {
 		q.Exec()
 	}
 	verif.Assert(verif.Unchanged(snap, doc), "document-unchanged")
+	intact := true
+	for _, full := range backings {
+		if full[len(full)-1] != "sentinel" || full[len(full)-2] != "sentinel" {
+			intact = false
+		}
+	}
+	verif.Assert(intact, "spare-capacity-untouched")
 	verif.Reach("end")
 }
 
